@@ -25,9 +25,14 @@ change nothing; `chainDeferred(e)` is the documented pair (e.callback, e.errback
 None, or a Failure(AlreadyCalledError) if e has already fired.  Guards for actions (decided on the
 model run, replayed on the real run): an action may touch the running Deferred itself only with
 addCallbacks, and other Deferreds only if they are not in the middle of their own chain at that
-moment (the recursive and the iterative reading order the remaining callbacks differently there);
-unpause without a matching program pause is skipped; pausing the running Deferred is skipped (the
-docs do not say whether the rest of the current run stops).
+moment (the recursive and the iterative reading order the remaining callbacks differently there),
+with one exception: a Deferred SUSPENDED in the chain stack below the running one (it handed its
+result to a waiter, which is being dealt with, and may have callbacks left) may be paused - a paused
+Deferred runs no callbacks until unpaused, and that is checked every time the loop returns to it -
+and, as long as it stays paused (so that nothing can run at once), may be given callbacks or an
+unpause that leaves it paused.  Unpausing it to zero or adding to it while un-paused stays unjudged.
+Unpause without a matching program pause is skipped; pausing a Deferred from inside one of its own
+callbacks is skipped (the docs do not say whether the rest of the current run stops).
 
 Guards (documented misuse or undocumented corners, decided on the model run and replayed
 identically on the real run by substituting a plain value for the returned Deferred):
@@ -60,7 +65,8 @@ RULE = ("bounded-exhaustive: every canonical program (Deferreds named in order o
         "to the sizes in coverage.spaces; random: programs over 2..6 Deferreds and 6..22 operations "
         "from addCallback/addErrback/addBoth/addCallbacks x {value, raise, return Failure, pass "
         "through, return d_j}, pause/unpause, callback/errback anywhere, half of them followed by "
-        "firing/unpausing everything in random order; re-entrant family (alphabet R exhaustive + random over 2..5 "
+        "firing/unpausing everything in random order; re-entrant family (alphabets R and P - callbacks pausing / unpausing another, possibly suspended, "
+        "Deferred - exhaustive + random over 2..5 "
         "Deferreds, 5..14 operations): callbacks that additionally add callbacks to their own running Deferred or to "
         "another one, pause/unpause/fire another Deferred (up to two levels of callbacks added by callbacks), "
         "chainDeferred, firing already fired Deferreds.  A case is one program; it is distinct by its "
@@ -69,7 +75,7 @@ RULE = ("bounded-exhaustive: every canonical program (Deferreds named in order o
         "Deferred / a chainDeferred pair fired, in the model run.")
 ASSUMPTIONS = [
     "trusted base: the ~110-line recursive Model in this module is the oracle of the documented chaining rules",
-    "re-entrant actions of callbacks are limited to the running Deferred (addCallbacks only) and to Deferreds not in the middle of their own chain; cancel() is C03's",
+    "re-entrant actions of callbacks are limited to the running Deferred (addCallbacks only), to Deferreds not in the middle of their own chain, and to pausing (or touching while paused) a Deferred suspended in the chain stack; cancel() is C03's",
     "returns of a Deferred that is its own, already waits on the current one, or is on the interpreter's stack are replaced by plain values (documented misuse / undocumented corner)",
     "remaining callbacks are read from Deferred.callbacks (ids of user callbacks only; continuation entries are ignored)",
 ]
@@ -78,7 +84,9 @@ FLOORS = {"ops_compared": 20000, "callback_events_compared": 10000, "chain_waits
           "handovers": 1000, "errback_side_runs": 1000, "substituted_returns": 20, "exhaustive_programs": 100000,
           "random_programs": 5000, "model_handover_to_paused": 200,
           "reentrant_random_programs": 5000, "re_act_add_own": 5000, "re_act_add_other": 2000, "re_act_nested_runs": 3000,
-          "re_act_ace": 3000, "re_act_pause": 1000, "re_chain_fired": 3000, "re_chain_ace": 3000, "re_top_ace": 5000}
+          "re_act_ace": 3000, "re_act_pause": 1000, "re_chain_fired": 3000, "re_chain_ace": 3000, "re_top_ace": 5000,
+          "re_act_suspended_pause": 2000, "re_act_suspended_add": 200, "re_act_suspended_unpause": 50,
+          "reentrant_suspended_programs": 2000}
 READY = True
 
 KEY_STRAND = "paused-chainee-strands-inner-callbacks"
@@ -89,7 +97,7 @@ NORES = "NORESULT"
 # reference interpreter (no twisted)
 # ------------------------------------------------------------------------------------------------
 class _MD:
-    __slots__ = ("i", "called", "paused", "result", "cbs", "inchain", "upause")
+    __slots__ = ("i", "called", "paused", "result", "cbs", "inchain", "upause", "incb")
 
     def __init__(self, i):
         self.i = i
@@ -99,6 +107,8 @@ class _MD:
         self.cbs = []  # ("cont", outer index) | (pid, cspec, espec); spec = None | (name, behaviour)
         self.inchain = 0
         self.upause = 0  # pauses made by the program (not by waiting)
+        self.incb = False  # executing one of its callbacks right now (as opposed to: suspended in the
+        #                    chain stack while a Deferred it handed its result to is being dealt with)
 
 
 def _isfail(r):
@@ -121,7 +131,8 @@ class Model:
         self.skips = set()   # callback names whose re-entrant action is not performed (guards)
         self.st = {"waits": 0, "taken": 0, "handovers": 0, "eb_runs": 0, "sub_cycle": 0, "sub_inchain": 0, "depth": 0,
                    "act_add_own": 0, "act_add_other": 0, "act_pause": 0, "act_unpause": 0, "act_fire": 0, "act_ace": 0,
-                   "act_skipped": 0, "act_nested_runs": 0, "chain_fired": 0, "chain_ace": 0, "top_ace": 0, "top_skipped": 0}
+                   "act_skipped": 0, "act_nested_runs": 0, "act_suspended_pause": 0, "act_suspended_add": 0,
+                   "act_suspended_unpause": 0, "chain_fired": 0, "chain_ace": 0, "top_ace": 0, "top_skipped": 0}
 
     # -- top-level operations -----------------------------------------------------------------
     def op(self, o):
@@ -184,7 +195,21 @@ class Model:
             self.st["act_add_own"] += 1
             d.cbs.append(a[3])
             return
-        if t.inchain or (k == "unpause" and not t.upause):
+        if t.inchain and not t.incb:
+            # t is suspended in the chain stack below the running Deferred (it handed its result to a
+            # waiter and may have callbacks left).  pause() is well defined: a paused Deferred runs no
+            # callbacks until unpaused, checked when the loop returns to it.  addCallbacks / unpause are
+            # judged only while t stays paused (then nothing can run now); otherwise the docs do not say
+            # whether t's remaining callbacks run at once or when the loop returns to t.
+            ok = (k == "pause" or (k == "add" and t.paused > 0) or (k == "unpause" and t.upause and t.paused > 1))
+            if not ok:
+                self.skips.add(name)
+                self.st["act_skipped"] += 1
+                return
+            self.st["act_suspended_" + k] += 1
+            if stranded:
+                self.touch.add(t.i)
+        elif t.inchain or (k == "unpause" and not t.upause):
             self.skips.add(name)
             self.st["act_skipped"] += 1
             return
@@ -254,7 +279,9 @@ class Model:
                     e.result = d.result
                     if act[1]:
                         self.touch.add(e.i)
+                    d.incb = True   # the pair is an ordinary callback of d
                     self.run(e, act[1])
+                    d.incb = False
                     d.result = None
                 continue
             name, beh, reent = spec
@@ -264,7 +291,9 @@ class Model:
                 self.st["eb_runs"] += 1
             if reent is not None:
                 inp = d.result
+                d.incb = True
                 self.act(d, name, reent, act[1])
+                d.incb = False
                 d.result = inp
             if beh == "val":
                 d.result = ("V", name)
@@ -503,7 +532,8 @@ def check_program(ctx, nd, ops, origin):
     ctx.maxi("model_nesting_depth", st["depth"])
     if origin[0] == "r" and origin[1] == "e":  # the re-entrant family
         for k in ("act_add_own", "act_add_other", "act_pause", "act_unpause", "act_fire", "act_ace", "act_skipped",
-                  "act_nested_runs", "chain_fired", "chain_ace", "top_ace", "top_skipped"):
+                  "act_nested_runs", "chain_fired", "chain_ace", "top_ace", "top_skipped", "act_suspended_pause",
+                  "act_suspended_add", "act_suspended_unpause"):
             if st[k]:
                 ctx.count("re_" + k, st[k])
     if st["waits"] or st["taken"] or st["act_nested_runs"] or st["act_add_own"] or st["chain_fired"]:
@@ -587,6 +617,9 @@ ALPHA_F = {"kinds": ("cb", "eb", "both"), "behs": ("val", "fail", "ret"), "fires
 # re-entrant alphabet: callbacks that add a callback to their own (running) Deferred or to another one, or fire
 # another Deferred (possibly already fired -> AlreadyCalledError inside the callback); chainDeferred; firing an
 # already fired Deferred from the top level
+# pause alphabet: success-only plus callbacks that pause / unpause ANOTHER Deferred while they run (which may be
+# suspended in the chain stack below them); top-level unpause is always generated (skipped when unmatched)
+ALPHA_P = {"kinds": ("cb",), "behs": ("val", "ret", "do-pause", "do-unpause"), "fires": ("v",), "anyunpause": True}
 ALPHA_R = {"kinds": ("cb",), "behs": ("val", "ret", "do-addown", "do-addother", "do-fire"), "fires": ("v",), "reent": True}
 
 
@@ -619,11 +652,13 @@ def enum_programs(nd, nops, alpha, owns, shard_depth=4):
                             ops.append(("add", t, kind, ("do", "val", ("add", t, "cb", "val", None)), None))
                             yield from rec(m1)
                             ops.pop()
-                        elif beh in ("ret", "do-addother", "do-fire"):
+                        elif beh in ("ret", "do-addother", "do-fire", "do-pause", "do-unpause"):
                             for j in range(min(m1, nd - 1) + 1):
                                 if j == t:
                                     continue
                                 b = (("ret", j) if beh == "ret" else ("do", "val", ("fire", j, "v")) if beh == "do-fire"
+                                     else ("do", "val", ("pause", j)) if beh == "do-pause"
+                                     else ("do", "val", ("unpause", j)) if beh == "do-unpause"
                                      else ("do", "val", ("add", j, "cb", "val", None)))
                                 ops.append(("add", t, kind, b if kind != "eb" else None, b if kind == "eb" else None))
                                 yield from rec(max(m1, j + 1))
@@ -638,7 +673,7 @@ def enum_programs(nd, nops, alpha, owns, shard_depth=4):
                 yield from rec(m1)
                 ops.pop()
                 upause[t] -= 1
-            if upause[t]:
+            if upause[t] or alpha.get("anyunpause"):
                 upause[t] -= 1
                 ops.append(("unpause", t))
                 yield from rec(m1)
@@ -789,6 +824,60 @@ def random_reentrant(rng):
     return nd, ops
 
 
+def random_suspended(rng):
+    """Programs aimed at Deferreds suspended in the chain stack: o waits on i, i gets callbacks behind o's
+    continuation, and the callbacks o runs after the hand-over pause / unpause / add to i (or fire others)."""
+    nd = rng.choice((2, 3, 3, 4))
+    o, i = rng.sample(range(nd), 2)
+    others = [x for x in range(nd) if x not in (o, i)]
+
+    def plain():
+        return rng.choice(("val", "val", "pass", "fail", "raise"))
+
+    def pair(beh):
+        kind = rng.choice(("cb", "both", "both", "eb"))
+        return (kind, None, beh) if kind == "eb" else (kind, beh, None)
+
+    ops = [("add", o, "cb", ("ret", i), None)]
+    for _ in range(rng.randint(1, 4)):
+        x = rng.random()
+        if x < 0.45:
+            a = ("pause", i)
+        elif x < 0.6:
+            a = ("unpause", i)
+        elif x < 0.8:
+            a = ("add", i) + pair(plain())
+        elif others and x < 0.9:
+            a = ("fire", rng.choice(others), "v")
+        else:
+            a = ("pause", i)
+        ops.append(("add", o, "both", ("do", rng.choice(("val", "pass")), a), None))
+    if others and rng.random() < 0.4:
+        w = rng.choice(others)
+        ops.append(("add", w, "cb", ("ret", i), None))
+        ops.append(("fire", w, "v"))
+    ops.append(("fire", o, "e" if rng.random() < 0.15 else "v"))
+    if ops[-1][2] == "e":
+        ops[0] = ("add", o, "both", ("ret", i), None)
+    for _ in range(rng.randint(1, 3)):
+        ops.append(("add", i) + pair(plain() if rng.random() < 0.8 else ("ret", o)))
+    for _ in range(rng.randint(0, 2)):
+        t = rng.randrange(nd)
+        ops.insert(rng.randint(1, len(ops)), rng.choice((("pause", t), ("unpause", t), ("add", t, "cb", "val", None))))
+    ops.append(("fire", i, "e" if rng.random() < 0.25 else "v"))
+    for _ in range(rng.randint(0, 4)):
+        x = rng.random()
+        if x < 0.5:
+            ops.append(("unpause", i))
+        elif x < 0.7:
+            ops.append(("add", i) + pair(plain()))
+        elif x < 0.85:
+            ops.append(("add", o) + pair(plain()))
+        else:
+            ops.append(("unpause", rng.randrange(nd)))
+    return nd, ops
+
+
 def _tolists(x):
     return [_tolists(y) for y in x] if isinstance(x, (list, tuple)) else x
 
@@ -824,16 +913,16 @@ def run(ctx):
         return
     # (nd, nops, alphabet name) - complete spaces per tier
     if ctx.quick or float(os.environ.get("VERIF_SCALE", "1")) < 1:  # smoke runs use the quick spaces
-        spaces = [(2, 6, "S"), (3, 5, "S"), (4, 5, "S"), (2, 4, "F"), (3, 4, "F"), (2, 4, "R"), (3, 3, "R")]
+        spaces = [(2, 6, "S"), (3, 5, "S"), (4, 5, "S"), (2, 4, "F"), (3, 4, "F"), (2, 4, "R"), (3, 3, "R"), (2, 5, "P"), (3, 4, "P")]
     else:
-        spaces = [(2, 8, "S"), (3, 6, "S"), (4, 6, "S"), (2, 5, "F"), (3, 4, "F"), (4, 4, "F"), (2, 5, "R"), (3, 4, "R")]
+        spaces = [(2, 8, "S"), (3, 6, "S"), (4, 6, "S"), (2, 5, "F"), (3, 4, "F"), (4, 4, "F"), (2, 5, "R"), (3, 4, "R"), (2, 6, "P"), (3, 5, "P")]
     ctx.extra["spaces"] = ["%d Deferreds, %d ops, alphabet %s" % s for s in spaces]
     gc_every = 2000
     n = 0
     for nd, nops, an in spaces:
-        alpha = {"S": ALPHA_S, "F": ALPHA_F, "R": ALPHA_R}[an]
+        alpha = {"S": ALPHA_S, "F": ALPHA_F, "R": ALPHA_R, "P": ALPHA_P}[an]
         cnt = 0
-        origin = ("re-entrant exhaustive %d/%d" if an == "R" else "exhaustive " + an + " %d/%d") % (nd, nops)
+        origin = ("re-entrant exhaustive " + an + " %d/%d" if an in "RP" else "exhaustive " + an + " %d/%d") % (nd, nops)
         for ops in enum_programs(nd, nops, alpha, ctx.owns):
             check_program(ctx, nd, ops, origin)
             cnt += 1
@@ -867,6 +956,16 @@ def run(ctx):
             gc.collect()
         if i < ctx.nshards:
             ctx.sample({"reentrant_case": i, "nd": nd, "ops": _tolists(ops), "model_stats": {k: v for k, v in st.items() if v}})
+    for i in ctx.cases(8000, 150000):
+        rng = ctx.case_rng("susp", i)
+        nd, ops = random_suspended(rng)
+        check_program(ctx, nd, ops, "re-entrant suspended case %d" % i)
+        ctx.count("reentrant_suspended_programs")
+        n += 1
+        if n % gc_every == 0:
+            gc.collect()
+        if i < 2 and ctx.shard == 0:
+            ctx.sample({"suspended_case": i, "nd": nd, "ops": _tolists(ops)})
     gc.collect()
     for k, v in _LOGGED.items():
         if k != "on":
